@@ -475,6 +475,7 @@ impl StringGenerator {
             }
 
             let len = line.len();
+            let mut line_has_char = false;
             while x < len {
                 let cell = &line[x];
                 if cur_font_page != cell.font_page && !self.options.modern_terminal_output {
@@ -547,7 +548,8 @@ impl StringGenerator {
                         let fmt = &format!("\x1B[{}C", rle + 1);
                         let output = fmt.as_bytes();
                         // moving the cursor does not wrap to the next line like printing the last column does
-                        if output.len() <= rle && x + rle + 1 < layer.get_width() as usize {
+                        // and it does not create the line for a reader: a line needs one printed char
+                        if output.len() <= rle && x + rle + 1 < layer.get_width() as usize && (line_has_char || x + rle + 1 < len) {
                             self.push_result(&mut result);
                             result.extend_from_slice(output);
                             self.push_result(&mut result);
@@ -555,6 +557,7 @@ impl StringGenerator {
                             continue;
                         }
                     }
+                    line_has_char = true;
                     if self.options.use_repeat_sequences {
                         let fmt = &format!("\x1B[{rle}b");
                         let output = fmt.as_bytes();
